@@ -3,9 +3,12 @@ package harness
 // C18 — every cloner adapter produces equal, deep and independent copies.
 
 import (
+	"bytes"
 	"fmt"
 	"runtime/debug"
 	"strings"
+	"sync"
+	"sync/atomic"
 	"testing"
 	"time"
 
@@ -26,6 +29,7 @@ import (
 	pb "github.com/fullstorydev/grpchan/grpchantesting"
 	"github.com/fullstorydev/grpchan/httpgrpc"
 	"github.com/fullstorydev/grpchan/inprocgrpc"
+	binlogpb "google.golang.org/grpc/binarylog/grpc_binarylog_v1"
 )
 
 type c18Val struct {
@@ -43,12 +47,77 @@ type c18Case struct {
 	// Poison: the adapter has just been through copies that fail (a dynamic message whose string field is not
 	// valid UTF-8 into a generated one; a message into a non-message); a failure leaves nothing behind
 	Poison bool `json:",omitempty"`
+	// Conc > 0: separate mode - Conc goroutines share one adapter instance (as concurrent calls on one channel do)
+	// and each clones and copies a message of its own, ConcRounds times; every result is its caller's message
+	Conc       int `json:",omitempty"`
+	ConcRounds int `json:",omitempty"`
+}
+
+func c18Concurrent(c c18Case) *Outcome {
+	o := &Outcome{NonTrivial: true}
+	o.class("adapter=%s/concurrent=%d/dyn=%v", c.Adapter, c.Conc, c.Src.Dyn)
+	cl := c18Adapter(c.Adapter)
+	var mu sync.Mutex
+	fault := ""
+	var wg sync.WaitGroup
+	var stop atomic.Bool
+	for g := 0; g < c.Conc; g++ {
+		wg.Add(1)
+		go func(g int) {
+			defer wg.Done()
+			defer func() {
+				if r := recover(); r != nil {
+					mu.Lock()
+					if fault == "" {
+						fault = fmt.Sprintf("goroutine %d: panic: %v", g, r)
+					}
+					mu.Unlock()
+					stop.Store(true)
+				}
+			}()
+			own := c18Val{Type: "msg", Dyn: c.Src.Dyn, Bytes: mustMarshal(&pb.Message{Count: int32(g + 1), Payload: bytes.Repeat([]byte{byte('a' + g)}, 8+g)})}
+			src := own.build()
+			want, _ := c18Wire(src)
+			for r := 0; r < c.ConcRounds && !stop.Load(); r++ {
+				var got interface{}
+				var err error
+				what := "Clone"
+				if r%2 == 0 {
+					got, err = cl.Clone(src)
+				} else {
+					what = "Copy"
+					got = c18Val{Type: "msg", Dyn: c.Src.Dyn}.build()
+					err = cl.Copy(got, src)
+				}
+				b, werr := c18Wire(got)
+				if err != nil || werr != nil || string(b) != string(want) || got == src {
+					mu.Lock()
+					if fault == "" {
+						fault = fmt.Sprintf("%d goroutines sharing one %s adapter: %s #%d of goroutine %d returned err=%v, a message %x (its own is %x, same object as the source: %v)", c.Conc, c.Adapter, what, r, g, err, b, want, got == src)
+					}
+					mu.Unlock()
+					stop.Store(true)
+					return
+				}
+			}
+		}(g)
+	}
+	if st := guard("concurrent clones", wg.Wait); st != "" {
+		return o.failf("%s", st)
+	}
+	if fault != "" {
+		return o.failf("%s", fault)
+	}
+	return o
 }
 
 func c18New(typ string) proto.Message {
 	switch typ {
 	case "msg":
 		return new(pb.Message)
+	case "msg2":
+		// another package's message that is also called "Message" (grpc.binarylog.v1.Message)
+		return new(binlogpb.Message)
 	case "trailer":
 		return new(httpgrpc.HttpTrailer)
 	case "struct":
@@ -210,6 +279,9 @@ type c18NonProto struct {
 }
 
 func propC18(c c18Case) *Outcome {
+	if c.Conc > 0 {
+		return c18Concurrent(c)
+	}
 	o := &Outcome{}
 	o.class("adapter=%s/op=%s", c.Adapter, c.Op)
 	o.class("src=%s/dyn=%v", c.Src.Type, c.Src.Dyn)
@@ -333,6 +405,8 @@ func genC18Val(t *rapid.T, label string, typ string) c18Val {
 	switch typ {
 	case "msg":
 		m = genMsg(t, label, 2000).Build()
+	case "msg2":
+		m = &binlogpb.Message{Length: rapid.Uint32Range(0, 9).Draw(t, label+"-len"), Data: rapid.SliceOfN(rapid.Byte(), 0, 12).Draw(t, label+"-data")}
 	case "trailer":
 		tr := &httpgrpc.HttpTrailer{Code: rapid.Int32().Draw(t, label+"-code"), Message: rapid.StringMatching(`[ -~é]{0,12}`).Draw(t, label+"-msg")}
 		nk := rapid.IntRange(0, 3).Draw(t, label+"-nk")
@@ -385,14 +459,18 @@ func genC18Val(t *rapid.T, label string, typ string) c18Val {
 	return v
 }
 
-var c18Types = []string{"msg", "msg", "msg", "trailer", "trailer", "struct", "any", "timestamp", "empty", "stringvalue", "bytesvalue"}
+var c18Types = []string{"msg", "msg", "msg", "trailer", "trailer", "struct", "any", "timestamp", "empty", "stringvalue", "bytesvalue", "msg2"}
 
 func genC18(t *rapid.T) c18Case {
 	c := c18Case{Adapter: rapid.SampledFrom([]string{"proto", "codec", "clonefunc", "copyfunc"}).Draw(t, "adapter"), Op: rapid.SampledFrom([]string{"clone", "copy", "copy"}).Draw(t, "op")}
 	c.Poison = rapid.IntRange(0, 4).Draw(t, "poison") == 0
+	if rapid.IntRange(0, 29).Draw(t, "concurrent") == 0 {
+		return c18Case{Adapter: rapid.SampledFrom([]string{"proto", "codec", "clonefunc", "copyfunc"}).Draw(t, "cadapter"), Conc: rapid.IntRange(2, 8).Draw(t, "conc"), ConcRounds: 400,
+			Src: c18Val{Type: "msg", Dyn: rapid.Bool().Draw(t, "cdyn")}}
+	}
 	typ := rapid.SampledFrom(c18Types).Draw(t, "type")
 	c.Src = genC18Val(t, "src", typ)
-	dynOK := typ == "msg" || typ == "trailer"
+	dynOK := typ == "msg" || typ == "trailer" || typ == "msg2"
 	if dynOK {
 		c.Src.Dyn = rapid.Bool().Draw(t, "dyn")
 	}
@@ -407,8 +485,11 @@ func genC18(t *rapid.T) c18Case {
 			c.DstFill = genC18Val(t, "fill", typ)
 		case "other-type":
 			other := rapid.SampledFrom(c18Types).Filter(func(s string) bool { return s != typ }).Draw(t, "othertype")
+			if twin := map[string]string{"msg": "msg2", "msg2": "msg"}[typ]; twin != "" && rapid.Bool().Draw(t, "namesake") {
+				other = twin // a different type with the same simple name
+			}
 			c.DstFill = genC18Val(t, "fill", other)
-			if other == "msg" || other == "trailer" {
+			if other == "msg" || other == "trailer" || other == "msg2" {
 				c.DstFill.Dyn = rapid.Bool().Draw(t, "otherdyn")
 			}
 		}
@@ -418,8 +499,9 @@ func genC18(t *rapid.T) c18Case {
 
 func init() { registerReplay("C18", propC18) }
 
-const c18Rule = "rapid-generated: adapter (ProtoCloner, CodecCloner(proto), CloneFunc(ProtoCloner.Clone), CopyFunc(ProtoCloner.Copy)) x op (Clone, Copy) x source of 8 message types (test Message incl. maps/Any/unknown fields, HttpTrailer, Struct, Any, Timestamp, Empty, StringValue, BytesValue) in generated or dynamic representation x destination (empty, pre-populated, other representation empty/pre-populated, different message type, pointer to a non-proto struct); " +
+const c18Rule = "rapid-generated: adapter (ProtoCloner, CodecCloner(proto), CloneFunc(ProtoCloner.Clone), CopyFunc(ProtoCloner.Copy)) x op (Clone, Copy) x source of 8 message types (test Message incl. maps/Any/unknown fields, HttpTrailer, Struct, Any, Timestamp, Empty, StringValue, BytesValue) (and grpc.binarylog.v1.Message, a namesake of the test Message from another package) in generated or dynamic representation x destination (empty, pre-populated, other representation empty/pre-populated, different message type, pointer to a non-proto struct); " +
 	"oracle: result equals the source (compared through the generated type), source bytes unchanged, flipping every reachable byte of the copy leaves the source intact and vice versa, destination holds exactly the source content, different type / non-proto => non-nil error and no shared memory; generated<->dynamic must succeed except for CloneFunc (an error is accepted there, a silent wrong copy is not); never a panic; " +
+	"a concurrent mode (2..8 goroutines share one adapter instance, each cloning and copying its own message 400 times: every result is the caller's own message); " +
 	"also generated since the seeded rounds: the adapter has just been through copies that fail (invalid UTF-8 in a dynamic source, non-message destination) - a failure leaves nothing behind; " +
 	"non-trivial = pre-populated / cross-representation / refusal destination, or a dynamic source; distinct by case hash"
 
